@@ -60,7 +60,7 @@ def native_in_subprocess(fn, *args, timeout=120):
     return None, (r.stderr or r.stdout)[-1500:]
 
 
-def finish(prop, tier, seed, recs, assumed, reg, wall, timeout_ms):
+def finish(prop, tier, seed, recs, assumed, reg, wall, timeout_ms, bounded=()):
     known = load_known()
     expected = load_expected().get(prop, [])
     os.makedirs(os.path.join(OUT, prop), exist_ok=True)
@@ -124,6 +124,37 @@ def finish(prop, tier, seed, recs, assumed, reg, wall, timeout_ms):
                 violations.append((ob, rp, " no-failing-input-found"))
             else:
                 undecided.append((ob["name"], f"solvers returned unknown within {timeout_ms} ms ({ob['model'][:80]})"))
+    # ---- bounded stand-ins (never counted as proved): a failing concrete case is a replayed counterexample
+    bounded_ev = []
+    for b in bounded:
+        if b.get("error"):
+            errors.append((b["target"], "bounded stand-in crashed: " + b["error"]))
+            continue
+        bounded_ev.append({"target": b["target"], "cases": b["cases"], "cases_in_contract": b["in_contract"],
+                           "violations": len(b["violations"]), "label": "bounded (small-scope enumeration, not a proof)"})
+        for cl, show, detail in b["violations"][:3]:
+            rp = os.path.join(OUT, prop, "replay_bounded_" + re.sub(r"[^A-Za-z0-9_.#-]", "_", b["contract"] + "_" + cl) + ".py")
+            with open(rp, "w", encoding="utf-8") as f:
+                f.write(f'''#!/venv/bin/python
+"""Bounded stand-in: the executable contract {b["spec_mod"]}.{b["contract"]} failed natively on the real code.
+target : {b["target"]}
+clause : {cl}
+case   : {show}
+detail : {detail}
+"""
+import sys, os
+sys.path.insert(0, "/verif"); sys.path.insert(0, os.environ.get("PYVC_REPO_SRC", "/repo/src"))
+from pyvc import native
+r = native.run_cases({b["target"]!r}, {b["spec_mod"]!r}, {b["contract"]!r}, os.environ.get("VERIF_TIER", "quick"))
+for v in r["violations"]:
+    print("CONFIRMED", v)
+print("cases", r["cases"], "violations", len(r["violations"]))
+sys.exit(1 if r["violations"] else 0)
+''')
+            os.chmod(rp, 0o755)
+            violations.append(({"name": f"{prop}/{b['target'].split(':')[1]}/bounded:{cl}", "kind": "bounded", "status": "failed",
+                                "backend": "native", "where": show[:160]}, rp, ""))
+            break
     # ---- known findings: region excluded from the obligation, witness replayed on the real code
     kf_lines = []
     kf_evidence = []
@@ -174,6 +205,8 @@ def finish(prop, tier, seed, recs, assumed, reg, wall, timeout_ms):
             "per_query_budget_ms": timeout_ms,
             "assumed_contracts": [c.target for c in assumed],
             "known_findings": kf_evidence,
+            "bounded_standins": bounded_ev,
+            "quick_tier_restrictions": [c.target for c in reg.order if getattr(c, "quick_restricted", False) and prop in (c.props or [])],
             "undecided": [{"what": n, "why": w} for n, w in undecided],
             "source_sha256": sha,
             "samples": samples or [{"note": "no solver-discharged obligation to show"}],
